@@ -72,7 +72,7 @@ func runC20(c *core.Ctx) {
 		c.Check(okSig, "signature-chain", name, fn.Pos(), fmt.Sprintf("%d functions over %d distinct type parameters", n, len(tps)), "%s", detail)
 
 		// --- outer shape + closure term [T]
-		an := c.Analyze(fn)
+		an := c.AnalyzeDeep(fn, ir.NewRootState(fn, nil, nil, nil), "", 48)
 		if problems(c, "closure-shape", name, an) {
 			continue
 		}
@@ -89,7 +89,7 @@ func runC20(c *core.Ctx) {
 		cl := outer.Results[0]
 		inner := cl.Fn
 		ist := ir.NewRootState(inner, nil, cl.Args, outer.End)
-		ian := c.AnalyzeFrom(inner, ist, "closure-of-"+name)
+		ian := c.AnalyzeDeep(inner, ist, "closure-of-"+name, 48)
 		if problems(c, "closure-shape", name, ian) {
 			continue
 		}
